@@ -1,6 +1,7 @@
 import json, sys
 pid, wt, out, extra = sys.argv[1], sys.argv[2], sys.argv[3], (sys.argv[4] if len(sys.argv) > 4 else "")
-p = json.load(open(f"/tmp/prop-{pid}.json"))
+import os
+p = next(q for q in (json.loads(l) for l in open(os.path.join(os.path.dirname(os.path.abspath(__file__)), "..", "properties.jsonl")) if l.strip()) if q.get("id") == pid)
 print(f"""You are helping to evaluate a verification effort for the open-source Python library gorilla-co/odata-query (an OData v4 $filter parser that transpiles to SQL dialects, Django Q objects and SQLAlchemy clauses). Your task: produce ONE realistic code change ("seeded defect") to the library that BREAKS the semantic property given below, while the library still imports and its existing test-suite still passes — and a small demonstration program that fails with your change and passes without it.
 
 ## Your workspace
